@@ -59,4 +59,10 @@ var props = map[string]propSpec{
 		"virtual clock: time passes only when no thread can run; 'promptly' and 'when the period ends' are decided in virtual time",
 		"health histories up to length 5 (quick) / 7 (thorough) x thresholds {0,1,2,3}; shutdown: both signals x grace {0,2s,5s,10s} x backend latency {0,5s}, signal delivered at every point reachable with 1 (quick) / 2 (thorough) scheduler deviations",
 	}},
+	"C13": {Level: "exploration", Harnesses: []harnessSpec{
+		{Name: "shimurl", Quick: 120, Thorough: 900},
+	}, Assume: []string{
+		"the real gorilla dialler computes the address to connect to; only its NetDialContext is replaced (records the address, refuses the connection)",
+		"open-request bodies: every string of length <= 6 (quick) / 7 (thorough) over the alphabet a:/?#@[]%.1\\ plus a structured grammar of 23k URLs and a hand list (64 KiB, control bytes); backend host with and without port",
+	}},
 }
